@@ -346,6 +346,19 @@ func (ca CA) loadOrGenIntermediate(rootCert *x509.Certificate, rootKey crypto.Si
 		if err != nil {
 			return nil, nil, fmt.Errorf("decoding intermediate key: %v", err)
 		}
+
+		// the certificate and the key are stored by two separate writes, so a
+		// renewal that was interrupted (or whose write failed half-way) can
+		// leave a key in storage that does not belong to the certificate next
+		// to it; such a pair can only sign certificates that nobody can verify,
+		// so replace it instead of using it
+		if !publicKeysEqual(interCert.PublicKey, interKey.Public()) {
+			ca.log.Warn("stored intermediate key does not belong to stored intermediate certificate; generating a new intermediate")
+			interCert, interKey, err = ca.genIntermediate(rootCert, rootKey)
+			if err != nil {
+				return nil, nil, fmt.Errorf("generating new intermediate cert: %v", err)
+			}
+		}
 	}
 
 	return interCert, interKey, nil
